@@ -216,8 +216,10 @@ def tlc_trace(module, cfg, ndjson, timeout=900, extra=None, deque=False):
                '-noGenerateSpecTE', module]
         rc, out, wall = _run_tlc(cmd, d, env, timeout)
         fails = []
-        for m in re.finditer(r'^<<"FAIL", (.*?)>>\s*$', out, re.M):
-            vals = tlaval.parse('<<' + m.group(1) + '>>')
+        # TLC's pretty printer breaks a tuple longer than ~80 characters over several lines
+        # (`<< "FAIL",\n   "P",\n ... >>`): both layouts count - a wrapped FAIL line must never be lost
+        for m in re.finditer(r'^<<\s*"FAIL",\s(.*?)\s*>>\s*$', out, re.M | re.S):
+            vals = tlaval.parse('<<' + re.sub(r'\s+', ' ', m.group(1)) + '>>')
             fails.append(tuple(vals))
         done = re.search(r'^<<"DONE", (\d+), (\d+)>>', out, re.M)
         res = {'fails': sorted(set(fails), key=lambda x: [str(y) for y in x]), 'out': out, 'rc': rc, 'wall': wall,
